@@ -54,7 +54,7 @@ let req_of (x : sexp) =
       let bs = List.map (function At "x" -> None
                                 | Ls [c; t] -> Some ((num c = 1), z_of_int (num t))
                                 | _ -> failwith "bresp") bs in
-      let ts = List.map (fun t -> z_of_int (num t)) ts in
+      let ts = List.map (function At "x" -> None | t -> Some (z_of_int (num t))) ts in
       let os = List.map (function Ls l -> List.map op_of l | _ -> failwith "ops") os in
       let q = { q_now = z_of_int (num now); q_hash = by_restarts hs; q_backend = (num be = 1);
                 q_bresp = by_restarts bs; q_hit_ttl = by_restarts ts; q_ops = by_restarts os } in
